@@ -187,13 +187,13 @@ class UnprocessedRecords(BCheck):
     contract = ("haplotagphase with or without --no-mav on a VCF whose records are partly phased already, some of them multi-allelic (two ALT alleles, genotypes over "
                 "{0,1,2}): every record that is phased in the input keeps its GT string and PS; every record it phases gets the allele order and phase set of the tagging VCF")
     rule = ("seeded scenarios: 1 sample, 1 contig of 400-700 bp, 4-7 SNVs >= 25 bp apart of which about a third have two ALT alleles, one phase set, error-free tiled reads of "
-            "60-150 bp from both haplotypes; each record independently left phased or unphased in the haplotagphase input; mav on/off alternating; non-trivial = always")
+            "60-150 bp from both haplotypes; a third of the scenarios with a second record at the position of a biallelic variant (its ALT on the other haplotype); each record independently left phased or unphased in the haplotagphase input; mav on/off alternating; non-trivial = always")
     budget_s = {"quick": 60, "thorough": 600}
     chunk = 4
 
     def inputs(self, tier, rng):
         for i in range(300 if tier == "quick" else 4000):
-            yield dict(seed=rng.getrandbits(48), mav=(i % 2 == 0))
+            yield dict(seed=rng.getrandbits(48), mav=(i % 2 == 0), dup=(i % 3 == 1))
 
     def check(self, inp):
         from whatshap.cli.haplotag import run_haplotag
@@ -219,6 +219,15 @@ class UnprocessedRecords(BCheck):
             pos += r.randint(25, 60)
         if len(variants) < 2:
             return None
+        if inp.get("dup"):
+            # a second record at the position of a biallelic variant (allowed by the VCF specification): the site is 1/2-like, written as two records whose
+            # ALT alleles sit on different haplotypes; the reader skips the second record, so haplotagphase never processes it
+            cand = [k for k, v in enumerate(variants) if len(v["alts"]) == 1]
+            if cand:
+                k = r.choice(cand)
+                v = variants[k]
+                other = r.choice([b for b in "ACGT" if b != v["ref"] and b != v["alts"][0]])
+                variants.insert(k + 1, dict(pos=v["pos"], ref=v["ref"], alts=[other], gt=(v["gt"][1], v["gt"][0]), dup=True))
         haps = []
         for h in (0, 1):
             t = list(ref)
@@ -273,11 +282,11 @@ class UnprocessedRecords(BCheck):
                 if k_:
                     if f.get("GT") != want or f.get("PS") != str(ps):
                         return dict(expected="%s already phased in the input as %s:%d stays unaltered (mav=%s)" % (where, want, ps, inp["mav"]),
-                                    observed="%s:%s" % (f.get("GT"), f.get("PS")), clause="already-phased-unaltered", multiallelic=(len(v["alts"]) > 1))
+                                    observed="%s:%s" % (f.get("GT"), f.get("PS")), clause="already-phased-unaltered", multiallelic=(len(v["alts"]) > 1), duplicate=bool(v.get("dup")))
                 elif "|" in f.get("GT", ""):
                     if f.get("GT") != want or f.get("PS") != str(ps):
                         return dict(expected="%s newly phased exactly as in the tagging VCF: %s:%d" % (where, want, ps), observed="%s:%s" % (f.get("GT"), f.get("PS")),
-                                    clause="orientation-and-set", multiallelic=(len(v["alts"]) > 1))
+                                    clause="orientation-and-set", multiallelic=(len(v["alts"]) > 1), duplicate=bool(v.get("dup")))
             return None
         finally:
             logging.disable(logging.NOTSET)
